@@ -411,3 +411,13 @@ def call_sites(O):
             O.violation("driver called from %s" % name, None, dict(FACTS, what="extra call site", site=name),
                         B.protocol_battery() + B.fault_battery()[:7], B.fault_judge, "unexpected driver call site")
     O.note("driver call sites: %s" % sorted(set(s[0].split("::")[-1] for s in sites)))
+
+
+@obligation("C02/clock-rows-write-only", profiles=("dev",),
+            desc="get_row sequences for a row with a clock column and an expected column (every kind combination): the two "
+                 "mid-clock rows are unchecked (write-only, no expected values), the third is checked - whatever else the "
+                 "test data object holds")
+def clock_rows(O):
+    from . import C05, dri
+    lay = C05.Layout("clock and expected", ["in", "exp"], [0, 1])
+    C05.run_layout(O, lay, 7, rep=dri.Rep(FACTS, B.protocol_battery(), B.protocol_judge))
